@@ -484,7 +484,7 @@ func (s *SystemAnalysisServiceImpl) autoDetectArchitecture(graph *analyzer.Depen
 	moduleToLayer := make(map[string]string)
 	layerModules := make(map[string][]string)
 
-	for module := range graph.Nodes {
+	for _, module := range graph.GetModuleNames() {
 		layer := s.detectLayerFromModule(module, layerPatterns)
 		if layer != "" {
 			moduleToLayer[module] = layer
@@ -499,7 +499,13 @@ func (s *SystemAnalysisServiceImpl) autoDetectArchitecture(graph *analyzer.Depen
 
 	// Build layers configuration
 	layers := make([]domain.Layer, 0)
-	for layerName, modules := range layerModules {
+	layerNames := make([]string, 0, len(layerModules))
+	for layerName := range layerModules {
+		layerNames = append(layerNames, layerName)
+	}
+	sort.Strings(layerNames) // deterministic layer order
+	for _, layerName := range layerNames {
+		modules := layerModules[layerName]
 		// Extract unique package prefixes from modules
 		packagePrefixes := s.extractPackagePrefixes(modules)
 		if len(packagePrefixes) > 0 {
@@ -853,18 +859,24 @@ func (s *SystemAnalysisServiceImpl) findLongestChains(graph *analyzer.Dependency
 	var chains []domain.DependencyPath
 
 	// Find all paths using simple DFS
-	for moduleName := range graph.Nodes {
+	// (modules in sorted order: the search is capped, so the order decides which paths are found)
+	for _, moduleName := range graph.GetModuleNames() {
 		paths := s.findPathsFromModule(graph, moduleName, make(map[string]bool), []string{moduleName}, limit)
 		chains = append(chains, paths...)
 	}
 
-	// Sort by length (descending), then by first module name for deterministic results
+	// Sort by length (descending), then by the module names along the path for deterministic results
 	sort.Slice(chains, func(i, j int) bool {
 		if chains[i].Length != chains[j].Length {
 			return chains[i].Length > chains[j].Length
 		}
-		// Tie-breaker: compare first module name for deterministic results
-		return chains[i].Path[0] < chains[j].Path[0]
+		// Tie-breaker: compare the paths module by module (first module name first)
+		for k := 0; k < len(chains[i].Path) && k < len(chains[j].Path); k++ {
+			if chains[i].Path[k] != chains[j].Path[k] {
+				return chains[i].Path[k] < chains[j].Path[k]
+			}
+		}
+		return len(chains[i].Path) < len(chains[j].Path)
 	})
 
 	// Return top chains
@@ -890,7 +902,8 @@ func (s *SystemAnalysisServiceImpl) findPathsFromModule(graph *analyzer.Dependen
 		return paths
 	}
 
-	for dep := range node.Dependencies {
+	// Sorted order: the search stops after maxPaths paths, so the order decides which paths are found
+	for _, dep := range sortedModuleNames(node.Dependencies) {
 		if !visited[dep] {
 			newPath := append([]string{}, path...)
 			newPath = append(newPath, dep)
@@ -1080,7 +1093,15 @@ func (s *SystemAnalysisServiceImpl) extractCouplingResult(graph *analyzer.Depend
 		var refactoringCandidates []string
 
 		if graph.ModuleMetrics != nil {
-			for moduleName, moduleMetrics := range graph.ModuleMetrics {
+			// Sum in sorted module order so that float rounding does not depend on map iteration order
+			metricModules := make([]string, 0, len(graph.ModuleMetrics))
+			for moduleName := range graph.ModuleMetrics {
+				metricModules = append(metricModules, moduleName)
+			}
+			sort.Strings(metricModules)
+
+			for _, moduleName := range metricModules {
+				moduleMetrics := graph.ModuleMetrics[moduleName]
 				totalFanIn += float64(moduleMetrics.AfferentCoupling)
 				totalFanOut += float64(moduleMetrics.EfferentCoupling)
 				totalInstability += moduleMetrics.Instability
@@ -1114,6 +1135,17 @@ func (s *SystemAnalysisServiceImpl) extractCouplingResult(graph *analyzer.Depend
 	}
 
 	return metrics
+}
+
+// sortedModuleNames returns the module names of a set in sorted order,
+// for deterministic iteration over dependency sets.
+func sortedModuleNames(set map[string]bool) []string {
+	names := make([]string, 0, len(set))
+	for name := range set {
+		names = append(names, name)
+	}
+	sort.Strings(names)
+	return names
 }
 
 func minSystemAnalysis(a, b int) int {
